@@ -109,11 +109,13 @@ def dec_path(tok):
 TBL = {"v": "symbol_table", "f": "func_table", "c": "class_table"}
 
 
-def canon_real_match(m, pindex, sindex):
-    """AstMap of the real code -> canonical dict (paths instead of objects)."""
+def canon_real_match(m, pindex, sindex, restrict=False):
+    """AstMap of the real code -> canonical dict (paths instead of objects).
+    restrict=True (sub-match that inherited its parent's map): keep only this pattern's node pairs and
+    the student nodes inside the searched subtree; symbol tables keep every identifier."""
     def sp(node):
-        return sindex[id(node)]
-    maps = sorted((pindex[id(k)], sp(v)) for k, v in m.mappings.items())
+        return sindex.get(id(node), ("outside",)) if restrict else sindex[id(node)]
+    maps = sorted((pindex[id(k)], sp(v)) for k, v in m.mappings.items() if not restrict or id(k) in pindex)
     exps = {k: sp(v) for k, v in m.exp_table.items()}
     binds = {}
     for tag, attr in TBL.items():
@@ -205,40 +207,105 @@ def fields_of(node, out=None):
     return out
 
 
+SETUPS = ("code", "submission", "source")
+APIS = ("find_matches", "find_matches", "node")
+
+
 class Program:
     """A student program parsed once by CAIT (one Report, as in a real grading script: every
-    find_matches call on it reuses the cached CaitNode tree)."""
+    find_matches call on it reuses the cached CaitNode tree).
 
-    def __init__(self, code):
+    setup = "code":       find_matches(pattern, student_code=code, report=r)
+            "submission": the code is the main file (NOT called answer.py) of the report's Submission,
+                          find_matches(pattern, report=r)
+            "source":     as "submission", after pedal.source.verify(): CAIT takes over Source's parse
+    """
+
+    MAIN = "student_main.py"
+
+    def __init__(self, code, setup="code"):
         self.code = code
+        self.setup = setup
         self.report = Report()
-        self.sroot = parse_program(code, report=self.report)
+        if setup == "code":
+            self.sroot = parse_program(code, report=self.report)
+        else:
+            from pedal.core.submission import Submission
+            from pedal.core.commands import contextualize_report
+            contextualize_report(Submission(files={self.MAIN: code, "answer.py": "zz_not_this = 0\n"},
+                                            main_file=self.MAIN), report=self.report)
+            if setup == "source":
+                from pedal.source import verify
+                verify(report=self.report)
+            self.sroot = parse_program(report=self.report)
         self.sindex = {}
         self.stree = tree_of(self.sroot, (), self.sindex)
         self.senc = enc_tree(self.stree)
         self.sfields = fields_of(self.sroot)
         self.size = len(self.sfields)
 
+    def find_matches(self, pattern):
+        if self.setup == "code":
+            return find_matches(pattern, student_code=self.code, report=self.report)
+        return find_matches(pattern, report=self.report)
+
+    def find_match(self, pattern):
+        from pedal.cait.cait_api import find_match
+        if self.setup == "code":
+            return find_match(pattern, student_code=self.code, report=self.report)
+        return find_match(pattern, report=self.report)
+
 
 class RealRun:
-    """One call of pedal.cait.cait_api.find_matches(pattern, student_code=code)."""
+    """One search of `pattern` in a program.
 
-    def __init__(self, pattern, program):
+    api = "find_matches": pedal.cait.cait_api.find_matches (and find_match, which must be its first result)
+          "node":         CaitNode.find_matches on the already parsed root (use_previous=False)
+          "sub":          CaitNode.find_matches on the node `anchor` (a path), which was obtained from the
+                          parent match as parent_match[key]; use_previous as given
+    """
+
+    def __init__(self, pattern, program, api="find_matches", anchor=(), parent=None, key=None, use_previous=False):
         if isinstance(program, str):
             program = Program(program)
         self.program = program
         self.pattern = pattern
         self.code = program.code
+        self.api = api
+        self.anchor = tuple(anchor)
+        self.use_previous = use_previous
+        self.parent = parent
         self.exc = None
         self.matches = None     # canonical
         self.raw = None
+        self.first_differs = False
         self.sroot = program.sroot
         # the pattern tree as CaitNode builds it (the matcher builds its own the same way)
-        proot = CaitNode(ast.parse(pattern), "none", report=program.report)
+        ptop = ast.parse(pattern)
+        proot = CaitNode(ptop, "none", report=program.report)
         self.ptree = tree_of(proot, (), {})
         self.penc = enc_tree(self.ptree)
+        multi = len(ptop.body) != 1
+        if api == "find_matches":
+            self.snode = program.sroot
+            self.stree, self.senc, sindex = program.stree, program.senc, program.sindex
+        else:
+            self.snode = node_at(program.sroot, self.anchor)
+            if api == "sub":
+                self.snode = parent[key]            # AstMap.__getitem__ sets node.map = parent
+                if self.snode is not node_at(program.sroot, self.anchor):
+                    raise RuntimeError("anchor mismatch")
+            sindex = {}
+            self.stree = tree_of(self.snode, (), sindex)
+            self.senc = enc_tree(self.stree)
         try:
-            raw = find_matches(pattern, student_code=program.code, report=program.report)
+            if api == "find_matches":
+                raw = program.find_matches(pattern)
+                first = program.find_match(pattern)
+                if (first is None) != (not raw) or (raw and canon_shape(first) != canon_shape(raw[0])):
+                    self.first_differs = True
+            else:
+                raw = self.snode.find_matches(pattern, is_mod=multi, use_previous=use_previous)
         except RecursionError:
             raise
         except Exception as e:   # the property is about every pattern: an exception is an observation
@@ -246,14 +313,15 @@ class RealRun:
             return
         self.raw = raw
         if raw:
-            # recover the matcher's own pattern root from a mapping key
-            k = next(iter(raw[0].mappings))
+            # recover the matcher's own pattern root from a mapping key that belongs to THIS pattern
+            inherited = set() if parent is None or not use_previous else {id(k) for k in parent.mappings}
+            k = next(k for k in raw[0].mappings if id(k) not in inherited)
             while k.parent is not None:
                 k = k.parent
             pindex = index_of(k)
             if len(pindex) != tree_size(self.ptree):
                 raise RuntimeError("pattern tree rebuilt differently")
-            self.matches = [canon_real_match(m, pindex, program.sindex) for m in raw]
+            self.matches = [canon_real_match(m, pindex, sindex, restrict=bool(inherited)) for m in raw]
         else:
             self.matches = []
         # the fields changed by root trimming must be restored after matching
@@ -261,11 +329,55 @@ class RealRun:
             self.exc = "student-tree-fields-not-restored"
 
     def request(self):
-        return "match " + self.penc + " " + self.program.senc
+        return "match " + self.penc + " " + self.senc
+
+    @property
+    def compare_model(self):
+        """the Lean port models use_previous=None only"""
+        return not (self.api == "sub" and self.use_previous)
+
+    def embed_matches(self):
+        """the matches as given to the embedding checker.  A sub-match that inherited its parent's map is
+        checked on this pattern's own pairs; inherited __e__ entries of names this pattern does not use
+        are dropped, inherited symbols are all kept (one identifier per key must hold across both)."""
+        if self.compare_model:
+            return self.matches
+        names = pattern_names(self.ptree)
+        out = []
+        for m in self.matches:
+            out.append({"root": m["root"], "maps": m["maps"], "conf": m["conf"],
+                        "exps": {k: v for k, v in m["exps"].items() if k in names},
+                        "binds": {k: [(i, () if n and n[0] == "outside" else n) for i, n in lst]
+                                  for k, lst in m["binds"].items()}})
+        return out
 
     def embed_request(self):
-        return ("embed " + self.penc + " " + self.program.senc + " " + str(len(self.matches)) + " " +
-                " ".join(enc_match(m) for m in self.matches))
+        ms = self.embed_matches()
+        return ("embed " + self.penc + " " + self.senc + " " + str(len(ms)) + " " +
+                " ".join(enc_match(m) for m in ms))
+
+
+def pattern_names(t, out=None):
+    """identifiers of the Name nodes of an abstract tree"""
+    if out is None:
+        out = set()
+    if t[1] == "Name":
+        for name, tag, val in t[3]:
+            if name == "id" and tag == "O" and val[0] == "P":
+                out.add(val[2])
+    for k in t[4]:
+        pattern_names(k, out)
+    return out
+
+
+def canon_shape(m):
+    """identity-free shape of a real AstMap (to compare find_match with find_matches[0])."""
+    return (sorted((type(k.astNode).__name__, k.tree_id, type(v.astNode).__name__, v.tree_id)
+                   for k, v in m.mappings.items()),
+            sorted((k, v.tree_id) for k, v in m.exp_table.items()),
+            sorted((t, k, tuple(sym.id for sym in lst.my_list)) for t in TBL.values()
+                   for k, lst in getattr(m, t).items()),
+            None if m.match_root is None else m.match_root.tree_id)
 
 
 def node_at(root, path):
@@ -365,7 +477,7 @@ def repo_programs(max_nodes=400):
 
 NAMES = ["a", "b", "x", "y", "total", "item", "f", "g"]
 ATTRS = ["append", "val", "get"]
-CONSTS = ["0", "1", "2", "1.0", "True", "None", "'s'", "'t'", "b'q'", "3j", "..."]
+CONSTS = ["0", "1", "2", "1.0", "0.0", "True", "False", "None", "''", "'s'", "'t'", "b'q'", "b''", "3j", "..."]
 BINOPS = ["+", "+", "*", "-", "/", "%"]
 CMPOPS = ["<", "==", ">=", "!=", "in"]
 
@@ -464,6 +576,26 @@ class Gen:
         return src
 
 
+def respell(rng, src):
+    """the same program text with other line terminators / a form feed / a non-ASCII identifier"""
+    k = rng.random()
+    if k < 0.34:
+        return src.replace("\n", "\r\n"), "crlf"
+    if k < 0.50:
+        return src.replace("\n", "\r"), "cr"
+    if k < 0.66:
+        return "\x0c" + src.replace("\n", "\n\x0c", 1), "formfeed"
+    new = rng.choice(["\u00e9t\u00e9", "\u53d8\u91cf", "na\u00efve_"])
+    old = rng.choice(NAMES)
+    import re as _re
+    out = _re.sub(r"(?<![\w'.])%s(?![\w'])" % old, new, src)
+    try:
+        ast.parse(out)
+    except SyntaxError:
+        return src, "plain"
+    return out, "non-ascii"
+
+
 # --------------------------------------------------------------------------
 # pattern derivation (C11's generalisation steps) and mutation
 
@@ -533,6 +665,20 @@ def ast_index(node, path=(), index=None):
     return index
 
 
+def copy_ast(node):
+    """structural copy of an ast tree (fields and positions only: CPython shares Load()/Store() singletons
+    between trees and pedal hangs a `cait_node` attribute on them, which copy.deepcopy would follow)."""
+    if isinstance(node, list):
+        return [copy_ast(x) for x in node]
+    if not isinstance(node, ast.AST):
+        return node
+    new = type(node)(**{f: copy_ast(getattr(node, f, None)) for f in node._fields})
+    for a in node._attributes:
+        if hasattr(node, a):
+            setattr(new, a, getattr(node, a))
+    return new
+
+
 class Derived:
     """A pattern obtained from (a statement of) a program by C11's steps, with what each placeholder
     replaced: exps[key] = (CAIT path, source) of the replaced expression in the ORIGINAL program,
@@ -549,7 +695,7 @@ class Derived:
 
 def derive(rng, code, tree, whole=None, max_steps=4):
     """tree = ast.parse(code) (the ORIGINAL, nodes keep identity through a parallel deep copy)."""
-    work = copy.deepcopy(tree)
+    work = copy_ast(tree)
     # parallel walk to map copy nodes -> original nodes
     orig_of = {}
     for a, b in zip(ast.walk(work), ast.walk(tree)):
